@@ -140,6 +140,21 @@ func (mc *Checker) alert(pid peer.ID, metricName string) error {
 	return nil
 }
 
+// resetAlerts forgets the alerts sent for a peer and metric name.
+func (mc *Checker) resetAlerts(pid peer.ID, metricName string) {
+	mc.failedPeersMu.Lock()
+	defer mc.failedPeersMu.Unlock()
+
+	failedMetrics, ok := mc.failedPeers[pid]
+	if !ok {
+		return
+	}
+	delete(failedMetrics, metricName)
+	if len(failedMetrics) == 0 {
+		delete(mc.failedPeers, pid)
+	}
+}
+
 // Alerts returns a channel which gets notified by CheckPeers.
 func (mc *Checker) Alerts() <-chan *api.Alert {
 	return mc.alertCh
@@ -189,6 +204,9 @@ func (mc *Checker) failed(metric string, pid peer.ID) (float64, []float64, float
 	// not expired or we do not have enough number of metrics
 	// for accrual detection
 	if !latest.Expired() {
+		// Seen healthy: an alert sent for an earlier failure no
+		// longer counts, a later failure is a new one.
+		mc.resetAlerts(pid, metric)
 		return 0.0, nil, 0.0, false
 	}
 	// The latest metric has expired
